@@ -176,6 +176,12 @@ def gen_tree(rng: random.Random) -> dict[str, Any]:
             d = rng.choice(dirs)
             rules = rng.sample(["draft.md", "*.mdx", "notes*", "archive/", "x/", "b.md", "# c", "sub/", "index.md"], rng.randint(1, 3))
             entries[d + "/.gitignore"] = {"txt": "\n".join(rules) + "\n"}
+    # a second tool ignore file in another directory (sibling sub-trees with different rules)
+    if len(dirs) > 2 and rng.random() < 0.25:
+        d = rng.choice(dirs[1:])
+        if d + "/.flowmarkignore" not in entries:
+            rules = rng.sample(["a.md", "b.md", "README*", "*.mdx", "index.*", "notes.md", "big.md", "x/", "sub/"], rng.randint(1, 3))
+            entries[d + "/.flowmarkignore"] = {"txt": "\n".join(rules) + "\n"}
     return {"entries": entries, "limit": limit}
 
 
